@@ -614,4 +614,103 @@ theorem ptrReply_not_abasis (q : Query) (qt : String) (v4 : IP) (a : AResp) : (p
   case none => split <;> simp
   all_goals simp
 
+/-! ### CIDR masks bit by bit -/
+
+theorem byte_prefix_eq_iff (A B r : Nat) (hA : A < 256) (hB : B < 256) (hr : r ≤ 8) :
+    A / 2 ^ (8 - r) = B / 2 ^ (8 - r) ↔ ∀ j, j < r → A.testBit (7 - j) = B.testBit (7 - j) := by
+  constructor
+  · intro h j hj
+    have e : 7 - j = (r - 1 - j) + (8 - r) := by omega
+    rw [e, ← Nat.testBit_div_two_pow, ← Nat.testBit_div_two_pow, h]
+  · intro h
+    apply Nat.eq_of_testBit_eq
+    intro m
+    rw [Nat.testBit_div_two_pow, Nat.testBit_div_two_pow]
+    by_cases hm : m < r
+    · have := h (r - 1 - m) (by omega)
+      have e : 7 - (r - 1 - m) = m + (8 - r) := by omega
+      rw [e] at this; exact this
+    · have hA' : A < 2 ^ (m + (8 - r)) := Nat.lt_of_lt_of_le hA (by
+        have : (256 : Nat) = 2 ^ 8 := rfl
+        rw [this]; exact Nat.pow_le_pow_right (by decide) (by omega))
+      have hB' : B < 2 ^ (m + (8 - r)) := Nat.lt_of_lt_of_le hB (by
+        have : (256 : Nat) = 2 ^ 8 := rfl
+        rw [this]; exact Nat.pow_le_pow_right (by decide) (by omega))
+      rw [Nat.testBit_lt_two_pow hA', Nat.testBit_lt_two_pow hB']
+
+/-- bit `j` (most significant first) of a byte string. -/
+def bitOf (l : IP) (j : Nat) : Bool := (bAt l (j / 8)).toNat.testBit (7 - j % 8)
+
+theorem bitOf_cons_lt (a : UInt8) (xs : IP) (j : Nat) (h : j < 8) : bitOf (a :: xs) j = a.toNat.testBit (7 - j) := by
+  unfold bitOf bAt
+  have h0 : j / 8 = 0 := by omega
+  have h1 : j % 8 = j := by omega
+  simp [h0, h1]
+
+theorem bitOf_cons_ge (a : UInt8) (xs : IP) (j : Nat) : bitOf (a :: xs) (j + 8) = bitOf xs j := by
+  unfold bitOf bAt
+  have h0 : (j + 8) / 8 = j / 8 + 1 := by omega
+  have h1 : (j + 8) % 8 = j % 8 := by omega
+  simp [h0, h1]
+
+theorem byteEq_iff (bits i : Nat) (a b : UInt8) :
+    ((if bits - 8 * i ≥ 8 then a == b else if bits - 8 * i = 0 then true
+      else a.toNat / 2 ^ (8 - (bits - 8 * i)) == b.toNat / 2 ^ (8 - (bits - 8 * i))) = true) ↔
+    ∀ j, j < 8 → 8 * i + j < bits → a.toNat.testBit (7 - j) = b.toNat.testBit (7 - j) := by
+  have ha := a.toNat_lt
+  have hb := b.toNat_lt
+  by_cases h8 : bits - 8 * i ≥ 8
+  · simp only [h8, if_true, beq_iff_eq]
+    have := byte_prefix_eq_iff a.toNat b.toNat 8 (by omega) (by omega) (Nat.le_refl 8)
+    simp only [Nat.sub_self, Nat.pow_zero, Nat.div_one] at this
+    constructor
+    · intro h j hj _; exact this.mp (by rw [h]) j hj
+    · intro h
+      apply UInt8.toNat_inj.mp
+      exact this.mpr (fun j hj => h j hj (by omega))
+  · simp only [h8, if_false]
+    by_cases h0 : bits - 8 * i = 0
+    · simp only [h0, if_true, true_iff]
+      intro j _ hlt; omega
+    · simp only [h0, if_false, beq_iff_eq]
+      have := byte_prefix_eq_iff a.toNat b.toNat (bits - 8 * i) (by omega) (by omega) (by omega)
+      rw [this]
+      constructor
+      · intro h j _ hlt; exact h j (by omega)
+      · intro h j hj; exact h j (by omega) (by omega)
+
+theorem eqUnder_iff_bits (bits : Nat) : ∀ (x y : IP) (i : Nat), x.length = y.length →
+    (eqUnder bits i x y = true ↔ ∀ j, j < 8 * x.length → 8 * i + j < bits → bitOf x j = bitOf y j) := by
+  intro x
+  induction x with
+  | nil =>
+    intro y i hl
+    cases y with
+    | nil => simp [eqUnder]
+    | cons _ _ => simp at hl
+  | cons a xs ih =>
+    intro y i hl
+    cases y with
+    | nil => simp at hl
+    | cons b ys =>
+      have hl' : xs.length = ys.length := by simpa using hl
+      unfold eqUnder
+      simp only [Bool.and_eq_true]
+      rw [byteEq_iff, ih ys (i + 1) hl']
+      constructor
+      · rintro ⟨hh, ht⟩ j hj hlt
+        by_cases h8 : j < 8
+        · rw [bitOf_cons_lt _ _ _ h8, bitOf_cons_lt _ _ _ h8]; exact hh j h8 hlt
+        · obtain ⟨j', rfl⟩ : ∃ j', j = j' + 8 := ⟨j - 8, by omega⟩
+          rw [bitOf_cons_ge, bitOf_cons_ge]
+          exact ht j' (by simp at hj; omega) (by omega)
+      · intro h
+        constructor
+        · intro j hj hlt
+          have := h j (by simp; omega) hlt
+          rwa [bitOf_cons_lt _ _ _ hj, bitOf_cons_lt _ _ _ hj] at this
+        · intro j hj hlt
+          have := h (j + 8) (by simp; omega) (by omega)
+          rwa [bitOf_cons_ge, bitOf_cons_ge] at this
+
 end SdnsVerif.Lemmas.Dns64
